@@ -102,6 +102,9 @@ fn gen_wfields(rng: &mut Rng, stems: &mut Stems, n: usize, generic: bool, which:
     out
 }
 
+/// variant identifiers that are reserved words of a target once lower-cased (Swift case names, Kotlin / Scala / Python members)
+const KW_VARIANTS: [&str; 24] = ["Init", "Default", "Case", "Class", "Func", "Let", "Var", "Import", "Protocol", "Return", "Switch", "Where", "While", "In", "Is", "As", "Internal", "Public", "Private", "Static", "Struct", "Enum", "Try", "Catch"];
+
 struct WVariant {
     v: Variant,
     stem: String,
@@ -174,8 +177,17 @@ fn gen_items(rng: &mut Rng, which: u8) -> Vec<WItem> {
             1 => {
                 let nv = rng.range(1, 8);
                 let mut vs = vec![];
+                let mut kw_used = false;
                 for _ in 0..nv {
                     let vst = stems.fresh(rng);
+                    // one enum in ten has a variant whose name, lower-cased, is a word the targets reserve (`Init`,
+                    // `Default`, `Case`): however a backend gets around the word, the wire name stays serde's
+                    if which == 2 && !kw_used && rng.chance(1, 30) {
+                        kw_used = true;
+                        let kw = *rng.pick(&KW_VARIANTS);
+                        vs.push(WVariant { v: Variant::new(kw, VKind::Unit), stem: format!("kw:{}", kw.to_lowercase()), fields: vec![], newtype_val: None });
+                        continue;
+                    }
                     let mut v = Variant::new(&crate::gen::camel_name(&vst, rng), VKind::Unit);
                     if rng.chance(1, 4) {
                         v.rename = Some(rename_value(&vst, rng, true));
@@ -198,6 +210,18 @@ fn gen_items(rng: &mut Rng, which: u8) -> Vec<WItem> {
                     let vst = stems.fresh(rng);
                     let vident = crate::gen::camel_name(&vst, rng);
                     let force = i == nv - 1 && !has_data;
+                    // two variants whose names differ only in the case of their last letters (`QxxxxxId`, `QxxxxxID`): whatever a
+                    // backend derives from a variant's name (member keys, constants), each keeps its own wire name
+                    if which == 2 && !force && !vs.iter().any(|x| x.stem.starts_with("kw:")) && rng.chance(1, 14) {
+                        // (not the acronyms a Go `uppercase_acronyms` table of this workload re-cases: that setting merges such
+                        // spellings on purpose)
+                        let (a, b) = *rng.pick(&[("Db", "DB"), ("Io", "IO"), ("Ok", "OK")]);
+                        let base = crate::gen::cap(&vst);
+                        let low = format!("{base}{a}").to_lowercase();
+                        vs.push(WVariant { v: Variant::new(&format!("{base}{a}"), VKind::Unit), stem: format!("kw:{low}"), fields: vec![], newtype_val: None });
+                        vs.push(WVariant { v: Variant::new(&format!("{base}{b}"), VKind::Unit), stem: format!("kw:{}", &low[..low.len() - 1]), fields: vec![], newtype_val: None });
+                        continue;
+                    }
                     let sel = if which == 1 { 2 } else if force { rng.range(1, 2) } else { rng.below(3) };
                     let mut fields = vec![];
                     let mut newtype_val = None;
@@ -232,6 +256,11 @@ fn gen_items(rng: &mut Rng, which: u8) -> Vec<WItem> {
                             VKind::Struct(fields.iter().map(|w| w.f.clone()).collect())
                         }
                     };
+                    if which == 2 && matches!(kind, VKind::Unit) && !vs.iter().any(|x| x.stem.starts_with("kw:")) && rng.chance(1, 12) {
+                        let kw = *rng.pick(&KW_VARIANTS);
+                        vs.push(WVariant { v: Variant::new(kw, VKind::Unit), stem: format!("kw:{}", kw.to_lowercase()), fields: vec![], newtype_val: None });
+                        continue;
+                    }
                     let mut v = Variant::new(&vident, kind);
                     if rng.chance(1, 4) {
                         v.rename = Some(rename_value(&vst, rng, true));
@@ -471,6 +500,32 @@ pub fn run(ctx: &Ctx, which: u8) -> (Spec, Report) {
             let facts = &facts[*fi];
             let Some(file) = facts.file() else {
                 rep.inconclusive(&format!("output-not-parsed-{lname}"), json!({"status": format!("{:?}", facts.status).chars().take(300).collect::<String>(), "source": p.source}));
+                // the structure is not available, the text is: a key that is no identifier of any target (a dash in it) has to
+                // be carried by a string literal in every language (quoted property, SerialName, CodingKeys raw value, json
+                // tag, alias); a file in which it appears in no string literal at all does not bind it
+                if which == 1 && *lang != LangId::Scala {
+                    if let Some(text) = outcome.single() {
+                        for w in &p.items {
+                            if let WKind::Struct(fs) = &w.kind {
+                                for mf in fs {
+                                    let key = model_key(&mf.f, &w.item.rename_all);
+                                    if !key.contains('-') {
+                                        continue;
+                                    }
+                                    rep.eval(1);
+                                    rep.count("keys_looked_up_in_unparsed_output", 1);
+                                    if !text.contains(&format!("\"{key}\"")) && !text.contains(&format!("\"{key},")) {
+                                        rep.violate(
+                                            format!("C01|{lname}|struct|dashed-key-in-no-string-literal"),
+                                            format!("{}.{}: serde's key {key:?} appears in no string literal of the generated file (which is not well-formed either)", w.item.ident, mf.f.ident),
+                                            detail(json!({"owner": w.item.ident, "field": mf.f.ident, "serde_key": key})),
+                                        );
+                                    }
+                                }
+                            }
+                        }
+                    }
+                }
                 continue;
             };
             for w in &p.items {
@@ -600,7 +655,9 @@ pub fn run(ctx: &Ctx, which: u8) -> (Spec, Report) {
                             if which == 2 {
                                 let fv = &def.variants[ord];
                                 // positional match must agree with stems
-                                let st_ok = stems_in(&fv.ident).last() == Some(&mv.stem) || fv.wire_name.as_deref().map(|wn| stems_in(wn).last() == Some(&mv.stem)).unwrap_or(false);
+                                let squash = |x: &str| x.chars().filter(|c| c.is_alphanumeric()).collect::<String>().to_lowercase();
+                                let kw_ok = mv.stem.strip_prefix("kw:").map(|k| squash(&fv.ident).contains(k) || fv.wire_name.as_deref().map(|wn| squash(wn).contains(k)).unwrap_or(false)).unwrap_or(false);
+                                let st_ok = kw_ok || stems_in(&fv.ident).last() == Some(&mv.stem) || fv.wire_name.as_deref().map(|wn| stems_in(wn).last() == Some(&mv.stem)).unwrap_or(false);
                                 if !st_ok {
                                     rep.violate(format!("C02|{lname}|variant-order"), format!("{}: case #{ord} is {:?}, expected the case of {}", w.item.ident, fv.ident, mv.v.ident), detail(json!(null)));
                                     continue;
